@@ -28,11 +28,12 @@ def exc_targets(bc):
     return sorted(set(e.target for e in ee)) if ee else []
 
 
-def record(co, opc, ident, wf=1):
+def record(co, opc, ident, wf=1, via=None):
+    """via: a Bytecode object made for ANOTHER code object, whose get_instructions(co) is the neighbouring entry point"""
     bc = Bytecode(co, opc)
     ins = []
     cmp_op = list(opc.cmp_op)
-    for i in bc:
+    for i in (bc if via is None else via.get_instructions(co)):
         g = {"o": i.offset, "op": i.opcode, "n": i.opname, "a": -1 if i.arg is None else i.arg,
              "sz": i.inst_size if i.inst_size is not None else -1,
              "x": 1 if i.has_extended_arg else 0, "jt": 1 if i.is_jump_target else 0, "t": -1,
@@ -90,6 +91,8 @@ def main():
             except Exception as e:
                 fh.write(json.dumps({"id": path, "loaderror": "%s: %s" % (type(e).__name__, e)}) + "\n")
                 continue
+            top_bc = None
+            nvia = 0
             for p, c in walk(co):
                 ident = "%s#%s" % (path, p)
                 try:
@@ -100,6 +103,20 @@ def main():
                     r = {"id": ident, "error": "%s: %s" % (type(e).__name__, e), "tb": traceback.format_exc()[-800:]}
                 fh.write(json.dumps(r) + "\n")
                 n += 1
+                # the same code object through Bytecode.get_instructions() of a Bytecode object that was made for the module's code:
+                # everything must come from the object asked about (a few nested objects per file, those with cells or free variables first)
+                if c is not co and "error" not in r and len(c.co_code) <= 4000:
+                    scoped = bool(getattr(c, "co_cellvars", ()) or getattr(c, "co_freevars", ()))
+                    if (scoped and nvia < 10) or nvia < 3:
+                        nvia += 1
+                        try:
+                            with xd.quiet():
+                                if top_bc is None:
+                                    top_bc = Bytecode(co, opc)
+                                r2 = record(c, opc, ident + "@via-module-Bytecode", via=top_bc)
+                        except Exception as e:
+                            r2 = {"id": ident + "@via-module-Bytecode", "error": "%s: %s" % (type(e).__name__, e)}
+                        fh.write(json.dumps(r2) + "\n")
     sys.stderr.write("recorded %d code objects\n" % n)
 
 
